@@ -103,10 +103,16 @@ class RedisMessageBroker(MessageBrokerT):
     async def reject(self, key: RoutingKeyT) -> None:
         logger.debug("Rejecting message ({routing_key}).", extra={"routing_key": key})
 
-        raw_params: list[bytes | None] = await self.conn.hmget(
-            mnc(key),
-            keys=["parameters", "_reject_to"],
-        )
+        raw_params: list[bytes | None]
+        async with self.conn.pipeline(transaction=False) as pipe:
+            pipe.hmget(mnc(key), keys=["parameters", "_reject_to"])
+            pipe.zscore(self.processing_queue, mnc(key, short=True))
+            raw_params, in_flight_since = await pipe.execute()
+
+        if in_flight_since is None:
+            # the message isn't in flight (i.e. it was acked, nacked or requeued in the meantime) -
+            # there is nothing to return
+            return
 
         if raw_params[0] is None:
             # message's data is gone (i.e. it was acked in the meantime) - there is nothing to put back
